@@ -143,6 +143,21 @@ static void run_box(Ctx& ctx, uint64_t N, const CpuCfg& cfg, uint64_t maxdim, ui
     for (uint64_t asl : {N, N + 3}) { Shape s{N, q[0], q[1], q[2], q[3], asl}; dense_data(s, mat, a); check_case(ctx, mod, s, mat, a, shape_id(s, cfg.name, "dense"), false); }
 }
 
+// wide shapes: row / column counts around 16, 32, 64, 128, 256 (a counter or an index kept in 8 bits, a threshold tuned for "many rows")
+static void run_wide(Ctx& ctx, uint64_t N, const CpuCfg& cfg) {
+  MODULE* mod = get_module(N, FFT64, cfg);
+  std::vector<int64_t> mat, a;
+  for (auto& q : std::vector<std::vector<uint64_t>>{{17, 3, 17, 3}, {3, 17, 3, 18}, {33, 2, 33, 3}, {2, 33, 3, 33}, {65, 2, 66, 2}, {2, 65, 2, 64}, {129, 2, 129, 1}, {1, 129, 1, 130},
+                                                    {257, 1, 257, 1}, {1, 257, 2, 257}, {256, 3, 255, 3}, {3, 256, 3, 255}, {64, 5, 63, 4}, {5, 64, 4, 63}, {128, 2, 300, 2}, {2, 128, 2, 300}})
+    for (uint64_t asl : {N, N + 3}) {
+      Shape s{N, q[0], q[1], q[2], q[3], asl};
+      mat.resize(s.nr * s.nc * s.N); a.resize(std::max<uint64_t>(s.as, 1) * s.N);
+      for (size_t e = 0; e < mat.size(); ++e) { int64_t v = (int64_t)(e % 97) + 1 + (int64_t)(e / s.N); mat[e] = (e & 1) ? -v : v; }
+      for (size_t e = 0; e < a.size(); ++e) { int64_t v = (int64_t)(e % 977) + 1 + (int64_t)(e / s.N) * 1000; a[e] = (e % 3 == 0) ? -v : v; }
+      check_case(ctx, mod, s, mat, a, shape_id(s, cfg.name, "wide"), false);
+    }
+}
+
 // complete bilinear basis sweep: a = X^u e_i, M = X^v E_{ij}
 static void run_basis(Ctx& ctx, uint64_t N, const CpuCfg& cfg, uint64_t maxdim) {
   MODULE* mod = get_module(N, FFT64, cfg);
@@ -202,17 +217,19 @@ int main(int argc, char** argv) {
   for (uint64_t N : {16, 8, 4, 2}) for (auto& c : cf) items.push_back({0, N, c});
   if (!th) for (uint64_t N : {64, 32}) for (auto& c : cf) items.push_back({3, N, c});
   for (uint64_t N : (th ? std::vector<uint64_t>{16, 8, 4, 2} : std::vector<uint64_t>{8, 4, 2})) for (auto& c : cf) items.push_back({1, N, c});
+  for (uint64_t N : (th ? std::vector<uint64_t>{4, 8, 16, 64} : std::vector<uint64_t>{4, 16})) for (auto& c : cf) items.push_back({4, N, c});
   ctx.parallel(items.size(), [&](uint64_t i) {
     const It& it = items[i];
     if (it.kind == 0) run_box(ctx, it.N, it.cfg, th ? 6 : 4, 5);
     else if (it.kind == 3) run_box(ctx, it.N, it.cfg, 3, 4);
     else if (it.kind == 1) run_basis(ctx, it.N, it.cfg, 3);
+    else if (it.kind == 4) run_wide(ctx, it.N, it.cfg);
     else run_large(ctx, it.N, it.cfg);
   });
   ctx.assumptions = {"operands small enough that the C01 error budget summed over the rows is < 1/2, so exact equality is demanded",
                      "large N (thorough) uses matrix entries with 4 monomials each so that the exact schoolbook oracle stays linear in N"};
   return ctx.finish("exploration",
                     "N in {2,4} (column-major prepared layout) and {8,16} (block layout) x nrows,ncols in 1..4 (6 thorough) x a_size,res_size in 0..5 x a_sl in {N,N+3} x cfg x both entry points with dense injective probes; "
-                    "complete bilinear basis sweep (all X^u e_i, X^v E_ij) for N<=8 (16 thorough), dims<=3; thorough adds N in {32,64,1024,65536} x 40 fixed shapes; non-trivial when at least one row and one column are used; distinct = distinct case ids",
+                    "wide shapes (nrows / ncols / sizes around 16, 32, 64, 128, 256); complete bilinear basis sweep (all X^u e_i, X^v E_ij) for N<=8 (16 thorough), dims<=3; thorough adds N in {32,64,1024,65536} x 40 fixed shapes; non-trivial when at least one row and one column are used; distinct = distinct case ids",
                     true);
 }
